@@ -372,6 +372,12 @@ def c_arbiter(n):
         others_idle = z3.And(*[z3.And(z3.Not(b(h.v(o.valid))), z3.Not(b(mid[j]))) for j, o in enumerate(masters) if j != i])
         h.respond(f"resp.serve{i}", z3.And(b(h.v(m.valid)), b(h.v(s.ready)), others_idle), fire(h, m), 3)
     h.respond("resp.move", z3.And(b(h.v(s.ready)), *[b(h.v(m.valid)) for m in masters]), sf, 3)             # every producer offers, the consumer accepts
+    # no master stalls for ever behind a streaming one: when the owner's packet ends (its last beat is accepted) while another master is offering,
+    # the grant leaves the owner for the next cycle (round robin at packet boundaries) - a waiting producer's tokens keep moving
+    for i, m in enumerate(masters):
+        ends = z3.And(eqc(h.v(d.grant), i), fire(h, m), b(h.v(m.last)))
+        waiting = z3.Or(*[b(h.v(o.valid)) for j, o in enumerate(masters) if j != i])
+        h.ensure(f"ens.handover{i}", z3.Implies(z3.And(ends, waiting), z3.Not(eqc(h.n(d.rr.grant), i))))
     h.use_auto = True
     h.cover("cover.switch", h.n(d.rr.grant) != h.v(d.grant), depth=4)
     h.functions = ["litex.soc.interconnect.packet.Arbiter.__init__", "litex.soc.interconnect.packet.Status.__init__", "migen.genlib.roundrobin.RoundRobin (flattened)"]
